@@ -62,22 +62,23 @@ def run_mode(mode, tier, seed, key):
             raise RuntimeError(f"pipe-gen {mode} failed: {r.stderr[-2000:]}")
         reqs = [l.rstrip("\n") for l in open(cases)]
         ans = vlib.run_model(reqs)
-        with open(outs, "w") as f:
+        os.makedirs(cdir, exist_ok=True)
+        with open(outs + ".tmp", "w") as f:
             f.write("\n".join(ans) + "\n")
+        os.replace(outs + ".tmp", outs)
         log(f"[pipe] mode {mode}: {len(reqs)} cases in {time.time()-t:.1f}s")
-        # keep the cache small: drop other keys
+        # keep the cache small: drop entries of other tree keys that have not been touched for two hours
         root = os.path.join(vlib.WORK, "pipecache")
+        now = time.time()
         for k in os.listdir(root):
-            if k != key:
-                for f in os.listdir(os.path.join(root, k)):
-                    try:
-                        os.unlink(os.path.join(root, k, f))
-                    except OSError:
-                        pass
-                try:
-                    os.rmdir(os.path.join(root, k))
-                except OSError:
-                    pass
+            d = os.path.join(root, k)
+            try:
+                if k != key and now - os.path.getmtime(d) > 7200:
+                    for f in os.listdir(d):
+                        os.unlink(os.path.join(d, f))
+                    os.rmdir(d)
+            except OSError:
+                pass
         return reqs, ans, False
 
 
